@@ -64,6 +64,10 @@ def jobs(seed=0):
                 native_cmd=["python3", "tools/static_inventory.py"], functions=[], timeout=900,
                 bound_note="goto symbol tables + call graph of /repo's current sources; function pointers through module->func resolved "
                            "to the targets module_api.c stores, other indirect calls to every type-compatible function"),
+                            Job(name="static.module_wf", props=["C18", "C12", "C11", "C15"], shape="S5", sources=[], harness="", entry="", kind="native",
+                                native_cmd=["python3", "tools/module_wf_check.py"], functions=["new_module_info"], timeout=900,
+                                bound_note="closed-term evaluation (not a proof): wf_module, the precondition of every wrapper contract, evaluated on the "
+                                           "objects the real new_module_info returns for N = 2..65536 and both module types"),
                             Job(name="static.alignment", props=["C15", "C11", "C07"], shape="S7", sources=[], harness="", entry="", kind="native",
                                 native_cmd=["python3", "tools/align_inventory.py"], functions=[], timeout=120,
                                 bound_note="source inventory (not a proof): aligned-access intrinsics only as loads of precomputed twiddle tables, no "
